@@ -248,12 +248,14 @@ example :
 
 /-- **were `setCommitID` to write the pointer at the version being committed, the property would fail**: the
 record `Rollback(1)` leaves at the reserved version shadows the pointers of blocks 2', 3' — the store opens at
-the stale height 1 although the state, the index and the commit id of height 3 are those of block 3'. -/
-theorem pointer_at_commit_version_reopens_staleX :
+the stale height 1 with the root of block 1, although the latest state is that of block 3' and the history
+has built three heights. (The model derives the next height from the disk at every commit, i.e. it restarts
+before each block: block 3' is then written as height 2 again, over block 2'.) -/
+theorem pointer_at_commit_version_reopens_stale :
     let d := runEv .single .commitVersion [] rewound
     version d = 1 ∧ latestRoot d = [1] ∧
     stateScan d = [([1, 97], [4]), ([1, 99], [5])] ∧
-    smGet (dbOf d) (mkKey (commitIDKey 3) 3) = some (cidVal 3 [5]) ∧
+    (List.range 7).map (fun j => version (d.take j)) = [0, 1, 2, 3, 1, 1, 1] ∧
     (specRun [] rewound).length = 3 := by
   decide +kernel
 
